@@ -92,7 +92,16 @@ def run_cases(ctx, n_tables, check_model):
     lines, metas = [], []
     for _ in range(n_tables):
         keys, vals, exlo, exhi = gen_table(ctx.rng)
-        t = interpDict(*zip(keys, vals), extrapolate_low=exlo, extrapolate_high=exhi)
+        # the points are handed over in any order (ascending, descending - a pump curve listed from run-out to shut-off -, shuffled): the
+        # table is defined by its (key, value) pairs, not by their insertion order
+        pairs = list(zip(keys, vals))
+        order = ctx.rng.choice(['ascending', 'ascending', 'descending', 'shuffled'])
+        if order == 'descending':
+            pairs.reverse()
+        elif order == 'shuffled':
+            ctx.rng.shuffle(pairs)
+        ctx.count('tables_' + order)
+        t = interpDict(*pairs, extrapolate_low=exlo, extrapolate_high=exhi)
         for q in queries(ctx.rng, keys):
             try:
                 r = ('ok', t[q])
@@ -100,7 +109,7 @@ def run_cases(ctx, n_tables, check_model):
                 r = ('IndexError',)
             except Exception as e:   # noqa
                 r = ('exc', type(e).__name__)
-            metas.append((keys, vals, exlo, exhi, q, r))
+            metas.append((keys, vals, exlo, exhi, q, r, [list(x) for x in pairs]))
             if check_model:
                 lines.append('spec.lookup ' + ' '.join([enc(exlo), enc(exhi), enc(0.001), str(len(keys))]
                                                         + [enc(x) for kv in zip(keys, vals) for x in kv] + [enc(q)]))
@@ -111,12 +120,12 @@ def correspondence(ctx):
     from DHLLDV import DHLLDV_constants as K
     lines, metas = run_cases(ctx, ctx.n(150, 8000), True)
     outs = run_model(lines)
-    for (keys, vals, exlo, exhi, q, r), o in zip(metas, outs):
+    for (keys, vals, exlo, exhi, q, r, ins), o in zip(metas, outs):
         ctx.count('corr_compared')
         m = ('IndexError',) if o == 'IndexError' else ('ok', unbits(o))
         if m[0] != r[0] or (m[0] == 'ok' and not same_float(m[1], r[1])):
             ctx.mismatch('InterpTable.lookup differs from interpDict.__getitem__',
-                         {'keys': keys, 'vals': vals, 'extrapolate_low': exlo, 'extrapolate_high': exhi, 'query': q}, m, r)
+                         {'keys': keys, 'vals': vals, 'extrapolate_low': exlo, 'extrapolate_high': exhi, 'query': q, 'inserted_as': ins}, m, r)
     ctx.sample({'table_keys': metas[0][0], 'query': metas[0][4], 'impl': metas[0][5]})
     # shipped tables through the regenerated literals (tie T for the data)
     sig = signatures()
@@ -145,13 +154,13 @@ def monitor(ctx, extended=False):
     from DHLLDV import DHLLDV_constants as K
     _, metas = run_cases(ctx, ctx.n(300, 20000) * (4 if extended else 1), False)
     nontrivial = set()
-    for keys, vals, exlo, exhi, q, r in metas:
+    for keys, vals, exlo, exhi, q, r, ins in metas:
         ctx.count('evaluations')
         want = oracle_lookup(keys, vals, exlo, exhi, 0.001, q)
         good = want[0] == r[0] and (want[0] != 'ok' or same_float(want[1], r[1]))
         if not good:
             ctx.violation(f'lookup gives {r}, piecewise-linear specification gives {want}',
-                          {'keys': keys, 'vals': vals, 'extrapolate_low': exlo, 'extrapolate_high': exhi, 'query': q}, key='lookup-spec')
+                          {'keys': keys, 'vals': vals, 'extrapolate_low': exlo, 'extrapolate_high': exhi, 'query': q, 'inserted_as': ins}, key='lookup-spec')
         if q in keys or q < keys[0] or q > keys[-1]:
             nontrivial.add((tuple(keys), q))
     # item assignment refused
@@ -189,7 +198,7 @@ def replay(v):
     i = v['input']
     if 'query' not in i:
         return None
-    t = interpDict(*zip(i['keys'], i['vals']), extrapolate_low=i['extrapolate_low'], extrapolate_high=i['extrapolate_high'])
+    t = interpDict(*(i.get('inserted_as') or zip(i['keys'], i['vals'])), extrapolate_low=i['extrapolate_low'], extrapolate_high=i['extrapolate_high'])
     try:
         r = ('ok', t[i['query']])
     except IndexError:
